@@ -22,7 +22,10 @@ RULE = ('sample sets of 1-500 samples, 1-5 dimensions, weights: random / all equ
         'one dominant / nested-sampling-like decades, values distinct or (small sets) tied; 1-3 modes of unequal size '
         'for MultiNest (multimodal and not) and PolyChord; fitted subsets with linear/log priors, 0-2 derived parameters; '
         'fixture polynomial model with GridObs/NativeBinner or ArraySpectrum/FluxBinner and a real TransmissionModel '
-        '(isothermal / NPoint / Guillot). distinct non-trivial = distinct (stream, sampler, weight kind, size class, '
+        '(isothermal / NPoint / Guillot; fitted subsets: as generated / planet mass without the radius (disable_fit) / mass and '
+        'radius / radius switched off); ArraySpectrum observations with 1-2 bins reaching beyond an end of the native grid '
+        '(partly covered bins) in half of the cases; real-model references are forward models CONSTRUCTED at the MAP / the median '
+        '/ every sample; sample rows the forward model rejects are redrawn. distinct non-trivial = distinct (stream, sampler, weight kind, size class, '
         'ndim, #derived, #modes) with more than one sample of positive weight')
 ASSUMPTIONS = ['np.argsort modelled as a stable insertion sort: exact for distinct values; for tied values the comparison is '
                'made on the order numpy actually produced (result is compared up to the order inside tie groups)',
@@ -34,6 +37,11 @@ ASSUMPTIONS = ['np.argsort modelled as a stable insertion sort: exact for distin
                'double in the form the wrappers parse; the real samplers\' layouts cannot be checked offline)',
                'one process in the harness (the model theorem on the index-based order restoration covers every gather order; the multi-rank run is C18)',
                'rounding: 1e-9 relative to the value range of the trace',
+               '"binned to the observation" = FluxBinner.bindown as modelled by C05 (Binning.fluxBindown / overlapMeanSpec, driver_c05): '
+               'in each observation bin the overlap-weighted mean of the native spectrum over the part of the bin the native grid covers '
+               '(native bins = centre +- width/2, widths from the mid-points); bins the native grid does not reach are not judged',
+               'a real forward model constructed at given values (constructor arguments, c06.tm_at / build_tm) is the forward model '
+               '"evaluated at" them',
                'source tie of the whole store_nest_solutions / store_polychord_solutions: file contents are inputs '
                '(np.loadtxt tables as lists of rows, f.readlines() of post_separate.dat as a list of strings); str.split() = '
                'the whitespace-separated tokens and float(token) = the number it denotes (parameters splitWs / parseFloat; '
@@ -45,6 +53,7 @@ ASSUMPTIONS = ['np.argsort modelled as a stable insertion sort: exact for distin
                '(ops c09.nestsingle, c09.nestmodes, c09.polychains), compared entry by entry with the stored solutions']
 
 QS = [0.16, 0.5, 0.84]
+USES_MODELS = ['C05']     # Binning.fluxBindown / overlapMeanSpec: 'binned to the observation' (op c05.flux of driver_c05)
 
 # source tie (harness/translate.py, dialect 'obj' of harness/translate_obj.py and its extension 'objrec' of
 # harness/translate_objrec.py -> lean/TaurexModel/Gen/SrcC09.lean, tied to TaurexModel/Posterior.lean in
@@ -400,11 +409,78 @@ def gen_quantile_case(rng, k, big):
 
 
 # ------------------------------------------------------------------------------------------ fit stream
+def fit_order(spec, model2, obs2):
+    """K.fit_order without the parameters the case switches off with Optimizer.disable_fit (`spec['disable']`)"""
+    order, fitset = K.fit_order(spec, model2, obs2)
+    off = set(spec.get('disable') or [])
+    return [n for n in order if n not in off], fitset
+
+
+def vector_values(order, descs, vec):
+    """{parameter name: value in linear space} of one sampled vector (log-fitted entries are exponents)"""
+    return {n: ((10 ** float(np.ravel(v)[0])) if d[3] else float(np.ravel(v)[0])) for n, d, v in zip(order, descs, vec)}
+
+
+def constructed(spec, order, descs, vec):
+    """the real forward model CONSTRUCTED at the sampled values (constructor arguments): independent of every setter the
+    optimizer writes through and of whatever the fitted object has computed or cached before"""
+    return K.build_tm(K.tm_at(spec['model'], vector_values(order, descs, vec)))
+
+
+def add_edge_bins(rng, obs, lo, hi, delta):
+    """1-2 extra observation bins that reach beyond an end of the native wavenumber grid [lo, hi] (spacing delta): bins the
+    native spectrum covers only partly (10-90 %)"""
+    wl = [float(x) for x in obs['wl']]
+    n0 = len(wl)
+    widths = obs.get('widths')
+    if widths is None:
+        widths = [float(w) for w in (np.asarray(wl) * rng.uniform(0.02, 0.06, size=n0))]
+    else:
+        widths = [float(w) for w in widths]
+    spectrum, err = [float(x) for x in obs['spectrum']], [float(x) for x in obs['err']]
+    ends = [['blue'], ['red'], ['blue', 'red']][int(rng.integers(0, 3))]
+    for end in ends:
+        W = float(delta * rng.uniform(4.0, 9.0))
+        f = float(rng.uniform(-0.4, 0.8))
+        c = hi + f * W / 2 if end == 'blue' else lo - f * W / 2
+        w_ = 10000.0 / c
+        wl.append(w_)
+        widths.append(W * w_ * w_ / 10000.0)
+        spectrum.append(float(np.mean(spectrum[:n0])))
+        err.append(float(np.mean(err[:n0])))
+    return dict(obs, wl=wl, widths=widths, spectrum=spectrum, err=err), ends
+
+
 def gen_fit_spec(rng, k, big, tm=False):
     base = K.gen_tm_spec(rng, k) if tm else K.gen_poly_spec(rng, k)
     spec = dict(base)
     spec.pop('cubes', None)
     spec['stream'] = 'fit:' + base['stream']
+    spec['fit'] = [dict(f) for f in spec['fit']]
+    # quota (ArraySpectrum / FluxBinner observations, half of them): observation bins that reach beyond the end of
+    # the model's native grid, i.e. bins the native spectrum covers only partly
+    spec['edge_bins'] = []
+    if spec['obs']['type'] != 'grid' and rng.random() < 0.5:
+        if tm:
+            lo_, hi_, dl_ = float(K.TM_WN[0]), float(K.TM_WN[-1]), float(K.TM_WN[1] - K.TM_WN[0])
+        else:
+            nat_ = spec['model']['native']
+            grid_ = np.arange(*nat_['arange']) if isinstance(nat_, dict) else np.asarray(nat_, float)
+            lo_, hi_, dl_ = float(grid_[0]), float(grid_[-1]), float(grid_[1] - grid_[0])
+        spec['obs'], spec['edge_bins'] = add_edge_bins(rng, spec['obs'], lo_, hi_, dl_)
+    # quota (real model): fitted subsets around the planet - the mass fitted with / without the radius, the radius (fitted by
+    # default) switched off with disable_fit
+    spec['disable'] = []
+    if tm:
+        sub = (k // 3) % 4
+        names = [f['name'] for f in spec['fit']]
+        if sub in (1, 2) and 'planet_mass' not in names:
+            mass = float(spec['model']['mass'])
+            spec['fit'].append(dict(name='planet_mass', mode='linear', bounds=[0.4 * mass, 2.5 * mass], prior=None))
+        if sub in (1, 3):
+            spec['fit'] = [f for f in spec['fit'] if f['name'] != 'planet_radius']
+            spec['disable'] = ['planet_radius']
+        spec['subset'] = ['as-generated', 'mass-without-radius', 'mass-and-radius', 'radius-off'][sub]
     # quota (MultiNest): importance sampling, which switches mode separation off; the chains directory is shared by all
     # cases of a run, so files of earlier mode-separated runs are lying around, as in a re-used chains directory
     spec['importance'] = bool(spec.get('sampler') == 'multinest' and (k // 3) % 4 == 3)
@@ -428,16 +504,14 @@ def gen_fit_spec(rng, k, big, tm=False):
         if spec['cluster'] and rng.random() < 0.5:
             nmodes = int(rng.integers(2, 4))
     model2, obs2 = K.build_pair(spec)
-    order, fitset = K.fit_order(spec, model2, obs2)
+    order, fitset = fit_order(spec, model2, obs2)
     owner = {n: (model2 if n in model2.fittingParameters else obs2) for n in order}
     descs = [K.prior_desc(fitset[n], owner[n].fittingParameters[n][4]) for n in order]
     modes = []
     wkind = WKINDS[(k // 3) % len(WKINDS)]
-    for j in range(nmodes):
-        n = gen_size(rng, 60 if tm else big)
-        if sampler != 'nestle':
-            n = max(n, 2)          # a one-row text file is outside the quantifier (malformed stream)
-        tied = n <= 12 and rng.random() < 0.15
+    redrawn = 0
+
+    def draw(n, tied):
         cols = []
         for d, name in zip(descs, order):
             lo_u, hi_u = (0.05, 0.6) if tm else (0.0, 1.0)
@@ -447,7 +521,41 @@ def gen_fit_spec(rng, k, big, tm=False):
             if d[4]:
                 u = np.clip(u, 0.02, 0.98)
             cols.append(np.array([K.oracle_sample(d, float(x)) for x in u]))
-        samples = np.stack(cols, axis=1)
+        return np.stack(cols, axis=1)
+
+    def valid(vec):
+        """a sample the forward model rejects as an invalid atmosphere (mixture above unity, temperature nodes out of order,
+        ...) is not part of a sampler's output: outside the quantifier"""
+        if not tm:
+            return True
+        try:
+            constructed(spec, order, descs, vec)
+            return True
+        except fx_invalid:
+            return False
+
+    fx_invalid = K.fixtures()['InvalidModelException']
+    for j in range(nmodes):
+        n = gen_size(rng, 60 if tm else big)
+        if sampler != 'nestle':
+            n = max(n, 2)          # a one-row text file is outside the quantifier (malformed stream)
+        tied = n <= 12 and rng.random() < 0.15
+        samples = draw(n, tied)
+        keep = []
+        for r in range(n):
+            row = samples[r]
+            tries = 0
+            while not valid(row) and tries < 60:
+                row = draw(1, False)[0]
+                tries += 1
+            if tries:
+                redrawn += 1
+            if tries < 60:
+                keep.append(row)
+        if len(keep) < (1 if sampler == 'nestle' else 2):
+            raise C.InfraError('C09 generator: no valid sample row found for %r' % ([f['name'] for f in spec['fit']],))
+        samples = np.stack(keep, axis=0)
+        n = len(keep)
         w = gen_weights(rng, n, wkind)
         m2 = rng.permutation(n).astype(float) + rng.random()       # distinct "-2 log L" column
         modes.append(dict(samples=samples, weights=w, m2logl=m2, mean=samples.mean(0), sigma=samples.std(0) + 1e-3,
@@ -455,6 +563,7 @@ def gen_fit_spec(rng, k, big, tm=False):
                           logz=float(-rng.uniform(1, 50)), logzerr=0.1))
     spec['modes'] = modes
     spec['wkind'] = wkind
+    spec['redrawn_rows'] = redrawn
     return spec
 
 
@@ -465,10 +574,17 @@ def eval_fit(ctx, spec):
                   m2logl=np.asarray(m['m2logl'], float)) for m in spec['modes']]
     model, obs = K.build_pair(spec)
     model2, obs2 = K.build_pair(spec)
-    order, fitset = K.fit_order(spec, model2, obs2)
+    order, fitset = fit_order(spec, model2, obs2)
     owner2 = {n: (model2 if n in model2.fittingParameters else obs2) for n in order}
     descs = [K.prior_desc(fitset[n], owner2[n].fittingParameters[n][4]) for n in order]
     sm = dict(K.small(spec), derived=spec['derived'], sizes=[len(m['weights']) for m in modes], wkind=spec.get('wkind'))
+    tm = spec['model']['kind'] == 'tm'
+    if spec.get('subset'):
+        ctx.bucket('fitted-subset:' + spec['subset'])
+    if spec.get('edge_bins'):
+        ctx.bucket('observation:bins-partly-outside-the-native-grid:' + '+'.join(spec['edge_bins']))
+    if spec.get('redrawn_rows'):
+        ctx.bucket('sample-rows-redrawn(invalid atmosphere, outside the quantifier)', int(spec['redrawn_rows']))
     case = dict(spec)
     doubles.REC.reset()
     doubles.REC.script = lambda call: dict(modes=modes, logz=-3.0, logzerr=0.2, h=1.5)
@@ -477,6 +593,8 @@ def eval_fit(ctx, spec):
     try:
         with contextlib.redirect_stdout(io.StringIO()):
             opt = K.make_optimizer(spec, model, obs)
+            for nm in spec.get('disable') or []:
+                opt.disable_fit(nm)
             for d in spec['derived']:
                 opt.enable_derived(d)
             sol = opt.fit()
@@ -557,6 +675,21 @@ def eval_fit(ctx, spec):
                 ctx.violation('spectrum-not-at-map:' + where,
                               'stored solution spectrum is not the forward model at the MAP binned to the observation',
                               case, dict(mode=j, stored=got[:4], expected=exp_sp[:4]))
+            if tm:
+                # the same against a forward model CONSTRUCTED at the MAP (not reached through the setters of an object that
+                # has been evaluated before)
+                nat3 = constructed(spec, order, descs, mapvec).model(cutoff_grid=False)
+                exp3 = np.ravel(np.asarray(binner2.bindown(nat3[0], nat3[1])[1], float))
+                nsp = np.ravel(np.asarray(sp.get('native_spectrum', nat3[1]), float))
+                ctx.bucket('spectrum-vs-model-constructed-at-map')
+                if not (got.shape == exp3.shape and C.close(got, exp3, rel=1e-9, abs_=1e-300)
+                        and nsp.shape == np.ravel(nat3[1]).shape and C.close(nsp, np.ravel(nat3[1]), rel=1e-9, abs_=1e-300)):
+                    ctx.violation('spectrum-not-at-map:constructed:' + where,
+                                  'stored solution spectrum is not the spectrum of a forward model constructed at the MAP '
+                                  '(binned to the observation)', case,
+                                  dict(mode=j, map=vector_values(order, descs, mapvec), stored=got[:4], expected=exp3[:4]))
+            if 'binned_spectrum' in sp and spec['obs']['type'] != 'grid':
+                check_binned(ctx, where, binner2, nat, got, case, dict(sm, mode=j))
             # ---- stored profiles = those of the median solution
             if True:                        # real models and the polynomial fixture (whose store_contributions fails)
                 write(medvec)
@@ -570,6 +703,17 @@ def eval_fit(ctx, spec):
                         ctx.violation('profiles-not-at-median:' + where,
                                       'stored profile %s is not that of the median solution' % pk, case,
                                       dict(mode=j, stored=np.ravel(s['Profiles'][pk])[:3], expected=np.ravel(pv)[:3]))
+                if tm:
+                    m3 = constructed(spec, order, descs, medvec)
+                    m3.model(cutoff_grid=False)
+                    for pk, pv in m3.generate_profiles().items():
+                        if pk in s['Profiles'] and isinstance(pv, np.ndarray) and not C.close(
+                                np.ravel(s['Profiles'][pk]), np.ravel(pv), rel=1e-9, abs_=1e-300):
+                            ctx.violation('profiles-not-at-median:constructed:' + where,
+                                          'stored profile %s is not that of a forward model constructed at the median '
+                                          'solution' % pk, case,
+                                          dict(mode=j, median=vector_values(order, descs, medvec),
+                                               stored=np.ravel(s['Profiles'][pk])[:3], expected=np.ravel(pv)[:3]))
                 ctx.bucket('profiles-checked')
         # ---- derived traces: one entry per sample, in sample order; same quantile rule
         dp = s.get('derived_params', {})
@@ -599,6 +743,18 @@ def eval_fit(ctx, spec):
                               'derived trace entry i is not the derived value at sample i (sample order)', case,
                               dict(first_bad=bad, stored=tr[:5], expected=exp_tr[:5], weights=W[:5]))
                 continue
+            if tm:
+                # entry i against the derived value of a forward model CONSTRUCTED at sample i
+                exp3 = np.array([float(constructed(spec, order, descs, S[r]).derivedParameters[dname][2]())
+                                 for r in range(n)])
+                ctx.bucket('derived-vs-models-constructed-at-the-samples')
+                if not C.close(tr, exp3, rel=1e-9, abs_=1e-300):
+                    bad = int(np.argmax(~np.isclose(tr, exp3, rtol=1e-9, atol=0)))
+                    ctx.violation('derived-trace-order:constructed:' + where,
+                                  'derived trace entry i is not the derived value of a forward model constructed at sample i',
+                                  case, dict(derived=dname, first_bad=bad, stored=tr[:5], expected=exp3[:5],
+                                             sample=vector_values(order, descs, S[bad])))
+                    continue
             if float(np.max(np.abs(exp_tr))) > 0:
                 check_summary(ctx, where + ':derived', e, exp_tr, W, dict(sm, derived=dname, mode=j))
             # the re-ordering step of compute_derived_trace on the model (one process: index = 0 .. n-1)
@@ -615,6 +771,62 @@ def eval_fit(ctx, spec):
         ctx.bucket('weights:%s' % spec.get('wkind'))
         ctx.bucket('size:' + size_class(n))
     ctx.bucket('modes:%d' % len(modes))
+
+
+def check_binned(ctx, where, binner, nat, stored, case, sm):
+    """'binned to the observation': the stored binned spectrum against the C05 model of FluxBinner.bindown fed with the
+    native spectrum at the MAP and the observation's bins (Binning.fluxBindown and its specification overlapMeanSpec, op
+    c05.flux), and against the relation itself: in every observation bin the mean of the native spectrum weighted with the
+    overlap of the native bins (centre +- width/2, widths from the mid-points) with the bin, over the part of the bin the
+    native grid covers"""
+    nc = np.asarray(nat[0], float)
+    ns = np.ravel(np.asarray(nat[1], float))
+    out = binner.bindown(nc, ns)
+    tc, tw = np.asarray(out[0], float), np.asarray(out[3], float)
+    if len(nc) < 2 or stored.shape != tc.shape:
+        return
+    d = ctx.model('C05').call('c05.flux', C.N(0), C.L(nc), C.L([]), C.LL([ns.tolist()]), C.LL([]), C.N(2), C.L(tc),
+                              C.L(tw))
+    d.list(), d.list()
+    mb = d.list(d.list)
+    d.list(d.list)
+    ordered = d.bool()
+    sumov = np.array(d.list())
+    mspec = d.list(d.list)
+    if not ordered:
+        return
+    scale = float(np.max(np.abs(ns))) if ns.size else 1.0
+    ctx.check_close('stored binned_spectrum vs Binning.fluxBindown (C05 model) of the native MAP spectrum', stored, mb[0], sm,
+                    rel=1e-9, abs_=1e-12 * scale)
+    # the relation itself
+    edges = np.concatenate([[nc[0] - (nc[1] - nc[0]) / 2], (nc[:-1] + nc[1:]) / 2, [nc[-1] + (nc[-1] - nc[-2]) / 2]])
+    nw = np.abs(np.diff(edges))
+    nlo, nhi = nc - nw / 2, nc + nw / 2
+    if not (np.all(np.diff(nlo) >= 0) and np.all(np.diff(nhi) >= 0)):
+        return
+    partly = 0
+    for i, (c_, w_) in enumerate(zip(tc, tw)):
+        lo, hi = c_ - w_ / 2, c_ + w_ / 2
+        ov = np.clip(np.minimum(hi, nhi) - np.maximum(lo, nlo), 0.0, None)
+        tot = float(np.sum(ov))
+        if not tot > 1e-9 * w_:
+            continue                                    # a bin the native grid does not reach: not judged
+        covered = tot / w_
+        if covered < 1 - 1e-9:
+            partly += 1
+        exp = float(np.sum(ov * ns) / tot)
+        ctx.check_close('overlap-weighted mean vs Binning.overlapMeanSpec (C05 model)', exp, mspec[0][i], sm, rel=1e-9,
+                        abs_=1e-12 * scale)
+        if not abs(float(stored[i]) - exp) <= 1e-9 * abs(exp) + 1e-12 * scale:
+            ctx.violation('spectrum-not-binned-to-observation:' + where + (':partly-covered-bin' if covered < 1 - 1e-9 else ''),
+                          'stored binned spectrum is not the overlap-weighted mean of the native MAP spectrum over the '
+                          'observation bin', case,
+                          dict(bin=i, centre=float(c_), width=float(w_), covered_fraction=covered, stored=float(stored[i]),
+                               expected=exp))
+            break
+    ctx.bucket('binned-spectrum-vs-overlap-mean')
+    if partly:
+        ctx.bucket('binned-spectrum-vs-overlap-mean:with-partly-covered-bins')
 
 
 # ------------------------------------------------------------------------------------------ malformed
@@ -738,7 +950,7 @@ def run(ctx):
             eval_quantile(ctx, gen_quantile_case(rng, k, 500))
         for k in range(ctx.n(600, 9000)):
             eval_fit(ctx, gen_fit_spec(rng, k, big))
-        for k in range(ctx.n(90, 1200)):
+        for k in range(ctx.n(90, 800)):
             eval_fit(ctx, gen_fit_spec(rng, k, big, tm=True))
         malformed(ctx)
     finally:
